@@ -72,6 +72,10 @@ func main() {
 			}
 			c.Begin(i)
 			d.Run(c, i)
+			if c.evals%500 == 0 {
+				c.counters["case_space"] = total
+				c.Checkpoint()
+			}
 		}
 	}
 	if d.Done != nil {
